@@ -584,7 +584,7 @@ def _rebuild(ops_nokill):
     return out
 
 
-def shrink(binary, case_json, key, max_rounds=30):
+def shrink(binary, case_json, key, max_rounds=14):
     c = core.Case.from_json(case_json)
     cur = [o for o in case_ops(c) if o.name != 'kill']
     chunk = max(1, len(cur) // 2)
@@ -676,12 +676,11 @@ def run(tier):
 
 
 def _run(ck, cfg, tier, binary):
-    nsh = min(16, core.NCPU)
-    jobs = []
+    nsh = min(16, core.NCPU, int(os.environ.get('XV_JOBS', '16')))
+    jobs = [(binary, 'special', ck.seed, 0, 1, 0, 0, 0, 0)]
     per = (cfg['nrandom'] + nsh - 1) // nsh
     for s in range(nsh):
         jobs.append((binary, 'random', ck.seed, s, nsh, per, cfg['nops'], 0.06, 0, cfg['chk']))
-    jobs.append((binary, 'special', ck.seed, 0, 1, 0, 0, 0, 0))
     xsh = nsh if cfg['depth'] < 3 else nsh * 4
     for s in range(xsh):
         jobs.append((binary, 'exhaustive', ck.seed, s, xsh, 0, 0, 0, cfg['depth']))
@@ -733,8 +732,9 @@ def _run(ck, cfg, tier, binary):
         for key, what, w in r['violations']:
             ck.violation(key, what, w)
             first_witness.setdefault(key, w['case'])
-    # shrink the first witness of every key (parallel, bounded)
+    # shrink the first witness of every key (parallel, bounded); the pinned special cases are minimal already
     keys = [k for k in ck.violations if k in first_witness]
+    is_special = lambda k: str((first_witness[k].get('meta') or {}).get('class', '')).startswith('special')
     if keys:
         ck.note('shrinking %d witness(es)' % len(keys))
         from concurrent.futures import ThreadPoolExecutor
@@ -742,10 +742,10 @@ def _run(ck, cfg, tier, binary):
             try:
                 if 'expected_vs_observed' in ck.violations[k]['witness']:
                     attach_observed_dump(binary, ck.violations[k]['witness'])
-                return k, shrink(binary, first_witness[k], k)
+                return k, (None if is_special(k) else shrink(binary, first_witness[k], k))
             except Exception as e:          # shrinking is a convenience, never a verdict
                 return k, None
-        with ThreadPoolExecutor(min(8, len(keys))) as ex:
+        with ThreadPoolExecutor(min(nsh, len(keys))) as ex:
             for k, mc in ex.map(sh, keys):
                 if mc is not None:
                     ck.violations[k]['witness']['minimal_case'] = mc.to_json()
